@@ -270,3 +270,42 @@ def run_layouts(rep, tier):
         rmtree(g)
         rmtree(v)
     return fails
+
+
+def run_header_tiny(rep, tier):
+    """C01 / C16: several very small packages generated in one invocation with a header file — every written file is the header plus
+    the plain output of its own package, and the module builds."""
+    from .cmdtier import Workspace, panicked
+    ws = Workspace()
+    fails = []
+    try:
+        n = 4
+        for k in range(n):
+            os.makedirs("%s/tiny%d" % (ws.root, k))
+            open("%s/tiny%d/t.go" % (ws.root, k), "w").write("package tiny%d\n\ntype T struct{ N int }\n\nfunc NewT() T { return T{N: %d} }\n" % (k, k))
+            open("%s/tiny%d/wire.go" % (ws.root, k), "w").write("//go:build wireinject\n// +build wireinject\n\npackage tiny%d\n\nimport \"github.com/google/wire\"\n\n"
+                                                               "func Init%d() T {\n\tpanic(wire.Build(NewT))\n}\n" % (k, k))
+        hdr = "// Copyright notice of the project.\n\n"
+        open(ws.root + "/hdr.txt", "w").write(hdr)
+        rc, out, err = ws.wire(["gen", "./..."])
+        plain = {k: ws.read("tiny%d" % k) for k in range(n)}
+        if rc != 0 or None in plain.values() or panicked(err):
+            return [], [{"stream": "header-tiny", "why": ["wire gen fails on tiny well-formed packages: " + err.strip()[-300:]]}]
+        for k in range(n):
+            ws.write("tiny%d" % k, None)
+        rc, out, err = ws.wire(["gen", "-header_file", ws.root + "/hdr.txt", "./..."])
+        rep.evaluations += n
+        rep.nontrivial.add("header-tiny")
+        for k in range(n):
+            got = ws.read("tiny%d" % k)
+            if rc != 0 or got != hdr + plain[k]:
+                fails.append({"stream": "header-tiny", "why": ["`wire gen -header_file h ./...` over %d small packages (exit %d): the file written for package tiny%d is not the header "
+                                                               "followed by that package's own output" % (n, rc, k)],
+                              "written": (got or "<none>")[:600], "expected": (hdr + plain[k])[:600]})
+                break
+        rcb, outb, errb = run(["go", "build", "./..."], cwd=ws.root, env=dict(GOENV), timeout=300)
+        if rc == 0 and rcb != 0:
+            fails.append({"stream": "header-tiny", "why": ["wire gen reported success for every package, but the module does not build: " + (outb + errb).strip()[-300:]]})
+    finally:
+        ws.close()
+    return [], fails
